@@ -396,18 +396,15 @@ class ConditionLike:
                     pre_proc_str = PRE_PROC_LOOKUP[pre_proc_str]
                     if pre_proc_str == "dtype":
                         try:
-                            # convert strings to types
+                            # convert strings to types (other argument values, e.g. for
+                            # callables that take no type argument, are left alone)
                             if isinstance(spec_val, list):
                                 spec_val = [
-                                    DTYPE_LOOKUP[i.lower() if isinstance(i, str) else i]
+                                    DTYPE_LOOKUP[i.lower()] if isinstance(i, str) else i
                                     for i in spec_val
                                 ]
-                            else:
-                                spec_val = DTYPE_LOOKUP[
-                                    spec_val.lower()
-                                    if isinstance(spec_val, str)
-                                    else spec_val
-                                ]
+                            elif isinstance(spec_val, str):
+                                spec_val = DTYPE_LOOKUP[spec_val.lower()]
                         except KeyError:
                             raise MalformedConditionLikeSpec(
                                 f"Data type {spec_val!r} is not understood. Available data "
